@@ -19,7 +19,7 @@ What the compositor DOES with it is modelled:
   pattern, gradient, each an extra `_apply_source` with `shape * shape_e`,
   `alpha * shape_e * opacity` where `shape`, `alpha` are the layer's AFTER masks and layer
   opacity and BEFORE fill opacity (`shape_const`), then the stroke effects with the drawn
-  shape (its alpha is `shape * opacity`: the layer's opacity does not enter);
+  shape `s` and alpha `s * opacity_effect * opacity_layer`;
 * adjustment layers are skipped by `apply`.
 
 `force` is a parameter of every function.  Core Lean only.
@@ -149,13 +149,15 @@ def applyOverlays (B : Mode → Color → Color → Color) (V bbox : Rect) (x y 
       (applySource (B e.mode) st (pasteAt V bbox x y e.color white) (shape * se) (alpha * se * e.opacity) false) es
 
 /-- `_apply_stroke_effect`: `_apply_source(color, shape, shape * opacity, effect.blend_mode)` with the drawn
-colour (pasted on 0) and the drawn shape -/
-def applyStrokeFx (B : Mode → Color → Color → Color) (V bbox : Rect) (x y : Int) (st : PState) : List StrokeFx → PState
+colour (pasted on 0), the drawn shape, and `opacity = effect.opacity / 100.0 * (layer.opacity / 255.0)`
+(`lop`: the layer opacity) -/
+def applyStrokeFx (B : Mode → Color → Color → Color) (V bbox : Rect) (x y : Int) (lop : Rat) (st : PState) :
+    List StrokeFx → PState
   | [] => st
   | s :: ss =>
     let sh := pasteAt V bbox x y (s.shape V) 0
-    applyStrokeFx B V bbox x y
-      (applySource (B s.mode) st (pasteAt V bbox x y s.color black) sh (sh * s.opacity) false) ss
+    applyStrokeFx B V bbox x y lop
+      (applySource (B s.mode) st (pasteAt V bbox x y s.color black) sh (sh * (s.opacity * lop)) false) ss
 
 /-- the tail of `apply` with effects: mask and constant factors, the layer's own `_apply_source`, the overlays
 (with `shape`, `alpha` after masks and layer opacity, before fill opacity), the stroke effects -/
@@ -165,7 +167,7 @@ def finishFx (B : Mode → Color → Color → Color) (force : Bool) (V : Rect) 
   let shape1 := shape * m.1
   let alpha1 := alpha * (m.1 * m.2 * pr.opacity)
   let st1 := applySource (B pr.mode) st color (shape1 * pr.fill) (alpha1 * pr.fill) pr.knockout
-  applyStrokeFx B V pr.bbox x y (applyOverlays B V pr.bbox x y shape1 alpha1 st1 fx.overlays) fx.strokeFx
+  applyStrokeFx B V pr.bbox x y pr.opacity (applyOverlays B V pr.bbox x y shape1 alpha1 st1 fx.overlays) fx.strokeFx
 
 /-- the vector stroke inside `_get_object`: `Compositor(viewport, color, alpha)`, one `_apply_source` with the
 stroke, and the colour `finish()` returns (backdrop removed) becomes the object's colour -/
